@@ -96,6 +96,8 @@ def case_strategy(draw):
             # how the scope ends when it ends with an error: any exception class, also the ones outside Exception,
             # and a generator holding the scope open that is closed / abandoned
             "exc": draw(st.sampled_from(SCOPE_ERRORS)),
+            # the configuration is "an iterable of names": given as a list, set, tuple, dict view or a one-shot iterator
+            "ign_form": draw(st.sampled_from(["list", "list", "set", "tuple", "generator", "iter", "dict-keys", "map"])),
             "other_name": draw(gen.type_name()),
             # long-running processes evict record classes from the 4096-entry cache: an equal record may be an
             # instance of a re-generated class
@@ -193,6 +195,25 @@ def check(case, ctx):
             ob = impl(gen.build_record, o)
             if ob.ok and safe_eq(r, ob.value, "r == same-values-other-descriptor"):
                 raise Violation("equal-across-descriptors", "records of %r and %r compare equal" % (spec.p["desc"][0], o["desc"][0]))
+        # records of every OTHER kind on the other side (plain / nested / grouped, also one with a field called
+        # 'name' or 'records'): unequal in both directions, != the negation, never an exception, list membership works
+        for label, mk in FOREIGN_RECORDS:
+            fo = impl(mk)
+            if not fo.ok:
+                continue
+            o_ = fo.value
+            e1, e2 = safe_eq(r, o_, "r == " + label), safe_eq(o_, r, label + " == r")
+            if e1 != e2:
+                raise Violation("not-symmetric", "r == %s is %r, %s == r is %r" % (label, e1, label, e2), detail="foreign-record")
+            n1 = impl(lambda: r != o_)
+            if not n1.ok:
+                raise Violation("eq-raised", "r != %s raised %r" % (label, n1), detail=n1.type)
+            if bool(n1.value) == e1:
+                raise Violation("ne-not-negation", "r == %s is %r and r != it is %r" % (label, e1, n1.value))
+            m1 = impl(lambda: (o_ in [r, r]) , )
+            m2 = impl(lambda: (r in [o_, o_]))
+            if not m1.ok or not m2.ok:
+                raise Violation("eq-raised", "membership test between r and %s raised %r / %r" % (label, m1, m2), detail="in-list")
         # variations
         nvar = 0
         for var in case["variations"]:
@@ -224,14 +245,24 @@ def check(case, ctx):
             ign = {"varied": [fname], "other": [x for x in others if x != fname][:1], "meta": ["_generated", "_source"],
                    "ctx-varied": [fname], "ctx-nested": [fname], "ctx-exception": [fname]}[mode]
             expect_equal = fname in ign
+            names = list(ign)
+            form = case.get("ign_form", "list")
+
+            def shaped():
+                # a fresh object per use: one-shot iterators are spent after one pass
+                return {"list": lambda: list(names), "set": lambda: set(names), "tuple": lambda: tuple(names),
+                        "generator": lambda: (n for n in names), "iter": lambda: iter(names),
+                        "dict-keys": lambda: dict.fromkeys(names).keys(), "map": lambda: map(str, names)}[form]()
+
+            ctx.cls("ignore-config-given-as:" + form)
             if mode in ("varied", "other", "meta"):
-                set_ignored_fields_for_comparison(ign)
+                set_ignored_fields_for_comparison(shaped())
                 try:
                     _ignored_expect(r, v, expect_equal, where, mode)
                 finally:
                     set_ignored_fields_for_comparison(set())
             elif mode == "ctx-varied":
-                with ignore_fields_for_comparison(ign):
+                with ignore_fields_for_comparison(shaped()):
                     _ignored_expect(r, v, expect_equal, where, mode)
             elif mode == "ctx-nested":
                 with ignore_fields_for_comparison(["_source"]):
@@ -298,6 +329,30 @@ def _scope_error_class(kind):
     return {"KeyError": KeyError, "ValueError": ValueError, "custom-Exception": _ScopeError, "StopIteration": StopIteration,
             "KeyboardInterrupt": KeyboardInterrupt, "SystemExit": SystemExit, "GeneratorExit": GeneratorExit,
             "custom-BaseException": _ScopeBaseError, "CancelledError": asyncio.CancelledError}[kind]
+
+
+def _foreign_records():
+    import datetime as _d
+
+    from flow.record import GroupedRecord, RecordDescriptor
+
+    g = _d.datetime(2020, 1, 1, tzinfo=_d.timezone.utc)
+    P = RecordDescriptor("c12/plain", [("string", "s"), ("varint", "n")])
+    N = RecordDescriptor("c12/named", [("string", "name"), ("stringlist", "records")])
+    H = RecordDescriptor("c12/holder", [("record", "inner"), ("record[]", "many")])
+    return [
+        ("plain", lambda: P("x", 1, _generated=g)),
+        ("plain-with-name-field", lambda: N("c12/grp", ["a"], _generated=g)),
+        ("nested", lambda: H(P("i", 2, _generated=g), [P("j", 3, _generated=g)], _generated=g)),
+        ("grouped", lambda: GroupedRecord("c12/grp", [P("x", 1, _generated=g), N("n", [], _generated=g)])),
+        ("grouped-of-grouped", lambda: GroupedRecord("c12/outer", [GroupedRecord("c12/grp", [P("x", 1, _generated=g),
+                                                                                            N("n", [], _generated=g)]),
+                                                                 H(None, [], _generated=g)])),
+        ("empty-type", lambda: RecordDescriptor("c12/empty", [])(_generated=g)),
+    ]
+
+
+FOREIGN_RECORDS = _foreign_records()
 
 
 def _ignored_expect(r, v, expect_equal, where, mode):
